@@ -57,6 +57,30 @@ Theorem C13_mount_refuses : forall (cwd : bstr) (keys : list bstr) (path : bstr)
    forall k, In k keys -> ~ is_pre (comps k) (comps (mount_path cwd path))).
 Proof. exact find_mount_refuses. Qed.
 
+(* Two-path operations of a virtual OS (rename, symlink): each argument is resolved on its own; when the operation is
+   handed to a mount, that mount point is the longest component-wise prefix of BOTH paths (so neither lies under a
+   longer, nested mount point, and neither merely shares a name prefix with it), and each is handed over as exactly its
+   components below the mount point. *)
+Theorem C13_mount_two_path_ops : forall (cwd : bstr) (keys : list bstr) (p1 p2 k r1 r2 : bstr),
+  is_rooted cwd = true -> Forall key_ok keys ->
+  mount_two cwd keys p1 p2 = Some (k, r1, r2) ->
+  find_mount cwd keys p1 = Some (k, r1) /\ find_mount cwd keys p2 = Some (k, r2) /\
+  In k keys /\
+  comps (mount_path cwd p1) = comps k ++ comps r1 /\ comps (mount_path cwd p2) = comps k ++ comps r2 /\
+  Forall normal (comps r1) /\ Forall normal (comps r2) /\
+  (forall k', In k' keys ->
+     is_pre (comps k') (comps (mount_path cwd p1)) \/ is_pre (comps k') (comps (mount_path cwd p2)) ->
+     length (comps k') <= length (comps k)).
+Proof. exact mount_two_longest. Qed.
+
+(* ... and nothing is handed to any mount when either path lies under no mount point, or the two paths belong to
+   different mount points (a rename across filesystems). *)
+Theorem C13_mount_two_path_refuses : forall (cwd : bstr) (keys : list bstr) (p1 p2 : bstr),
+  mount_two cwd keys p1 p2 = None <->
+  find_mount cwd keys p1 = None \/ find_mount cwd keys p2 = None \/
+  (exists k1 r1 k2 r2, find_mount cwd keys p1 = Some (k1, r1) /\ find_mount cwd keys p2 = Some (k2, r2) /\ k1 <> k2).
+Proof. exact mount_two_refuses. Qed.
+
 (* The path handed to the mount's own rooted filesystem stays under that filesystem's base. *)
 Theorem C13_mount_then_local : forall (cwd : bstr) (keys : list bstr) (path k rel base q : bstr),
   is_rooted cwd = true -> Forall key_ok keys -> base_ok base ->
@@ -143,6 +167,19 @@ Definition tmp : bstr := [47;116;109;112]%N.            (* "/tmp" *)
 Definition tmpfoo : bstr := [47;116;109;112;102;111;111]%N. (* "/tmpfoo" *)
 Definition tmp_foo : bstr := [47;116;109;112;47;102;111;111]%N. (* "/tmp/foo" *)
 Example C13_tmpfoo_refused : find_mount [47]%N [tmp] tmpfoo = None.
+Proof. vm_compute. reflexivity. Qed.
+(* the second argument of a two-path operation: "/tmpfoo/x" is not on the mount "/tmp", "/data/b" is on the nested mount *)
+Definition root1 : bstr := [47]%N.
+Definition data : bstr := [47;100;97;116;97]%N.                        (* "/data" *)
+Example C13_two_sibling_refused :
+  mount_two [47]%N [tmp] [47;116;109;112;47;97]%N [47;116;109;112;102;111;111;47;120]%N = None.   (* /tmp/a -> /tmpfoo/x *)
+Proof. vm_compute. reflexivity. Qed.
+Example C13_two_nested_refused :
+  mount_two [47]%N [root1; data] [47;98]%N [47;100;97;116;97;47;98]%N = None.                       (* /b -> /data/b *)
+Proof. vm_compute. reflexivity. Qed.
+Example C13_two_same_mount_served :
+  mount_two [47]%N [root1; data] [47;100;97;116;97;47;97]%N [47;100;97;116;97;47;98]%N
+  = Some (data, [47;97]%N, [47;98]%N).                                                              (* /data/a -> /data/b *)
 Proof. vm_compute. reflexivity. Qed.
 Example C13_tmp_foo_served : find_mount [47]%N [tmp] tmp_foo = Some (tmp, [47;102;111;111]%N).
 Proof. vm_compute. reflexivity. Qed.
